@@ -69,6 +69,11 @@ impl SortedUintVecConfig {
         if self.sample_width < 16 || self.sample_width > 64 {
             return Err(ZiporaError::invalid_data("sample_width must be 16-64"));
         }
+        // Samples are packed back to back and accessed through one 8-byte window:
+        // a 58..63-bit sample that starts inside a byte would span nine bytes
+        if self.sample_width > 57 && self.sample_width < 64 {
+            return Err(ZiporaError::invalid_data("sample_width 58-63 is not supported"));
+        }
         Ok(())
     }
 
